@@ -269,7 +269,14 @@ class Model(object):
         tsd = dict(kind="none")
         sig = [[(self.tick(pm, s, ppq, org), b, bt) for s, b, bt in pm.tss] for pm in self.parts]
         meas = [[(self.tick(pm, s, ppq, org), self.tick(pm, e, ppq, org)) for s, e in pm.measures] for pm in self.parts]
-        uniform = all(x == sig[0] for x in sig) and all(x == meas[0] for x in meas)
+        uniform = all(x == sig[0] for x in sig)
+        if pol == "time_sig_change":
+            # parts may have different lengths: the common measures must agree
+            n = min(len(x) for x in meas)
+            uniform = uniform and all(x[:n] == meas[0][:n] for x in meas)
+            pm0 = max(self.parts, key=lambda pm: len(pm.measures))
+            meas = [meas[pm0.idx]]
+            sig = [sig[pm0.idx]]
         if uniform:
             if pol == "shift":
                 tsd = dict(kind="exact", sets=[sorted(set(sig[0]))])
@@ -449,7 +456,7 @@ def gen_pickup(ds, variants=("plain", "tschange", "shortmid", "shortlast", "long
                         tss.append((x, beats + 1, bt))
                     objs = [ts(*x) for x in tss]
                     objs += [measure(i + (0 if p else 1), s, e) for i, (s, e) in enumerate(ms)]
-                    objs += [ks(0, -2, "major"), ks(ms[-1][0], 3, "minor")]
+                    objs += [ks(0, -2, "major" if p % 2 == 0 else None), ks(ms[-1][0], 3, "minor")]
                     objs += [tempo(0, 90, "q"), tempo(ms[1][0], 66, "q." if var == "plain" else "h")]
                     objs += _fill(ms, d, beat if beat >= 1 else 1)
                     yield dict(score={"parts": [part("P1", [(0, d)], objs)]},
@@ -478,23 +485,33 @@ def _voice_notes(d, p, pidx, vidx, pat, pitch):
     return out
 
 
-def _mode_part(pid, pidx, d, voices, pickup, fifths, with_meta=True):
+def _mode_part(pid, pidx, d, voices, pickup, fifths, with_meta=True, extra_bar=False):
     p = d if pickup else 0
     bar = 2 * d
     objs = []
     if with_meta:
         objs.append(ts(0, 2, 4))
         objs += ([measure(0, 0, p)] if p else []) + [measure(1, p, p + bar), measure(2, p + bar, p + 2 * bar)]
+        if extra_bar:
+            # this part goes on for one more bar than the others
+            objs.append(measure(3, p + 2 * bar, p + 3 * bar))
+            if voices:
+                objs.append(note("p%dx" % pidx, p + 2 * bar, p + 3 * bar - 1, 90 + pidx, voices[0]))
+            else:
+                objs.append(rest("p%dx" % pidx, p + 2 * bar, p + 3 * bar))
         objs.append(ks(0, fifths, "major"))
         objs.append(tempo(0, 100, "q"))
         objs.append(ks(p + bar, fifths - 1, "minor"))
     for j, v in enumerate(voices):
         objs += _voice_notes(d, p, pidx, v, (pidx + j) % 3, 40 + 9 * pidx + 3 * j)
+    if not voices:
+        # a tacet part: rests only
+        objs += ([rest("p%dr0" % pidx, 0, p)] if p else []) + [rest("p%dr1" % pidx, p, p + bar), rest("p%dr2" % pidx, p + bar, p + 2 * bar)]
     return part(pid, [(0, d)], objs)
 
 
 # structure: nested lists; an int n = a part with voices numbered per VOICES[n]
-VOICE_SETS = {1: [1], 2: [1, 2], 3: [2, 1, 3], 0: [None], 5: [5]}
+VOICE_SETS = {1: [1], 2: [1, 2], 3: [2, 1, 3], 0: [None], 5: [5], 9: []}
 STRUCTURES = [
     ("1p2v", [2]),
     ("1p3v", [3]),
@@ -507,6 +524,8 @@ STRUCTURES = [
     ("g(p)+g(2p)", [[1], [1, 1]]),
     ("g(g(2p),p)+p", [[[1, 1], 2], 5]),
     ("3p2v", [2, 2, 2]),
+    ("p+tacet+p", [1, 9, 2]),
+    ("g(tacet,p)+p", [[9, 1], 1]),
 ]
 DIV_PATTERNS = [[4, 6, 1, 12], [6, 4, 12, 2], [1, 12, 3, 2], [2, 3, 4, 1], [2, 2, 2, 2]]
 
@@ -514,7 +533,8 @@ DIV_PATTERNS = [[4, 6, 1, 12], [6, 4, 12, 2], [1, 12, 3, 2], [2, 3, 4, 1], [2, 2
 def gen_modes(patterns=None):
     pats = DIV_PATTERNS if patterns is None else patterns
     for name, struct in STRUCTURES:
-        for dp in pats:
+        for dpi, dp in enumerate(pats):
+          for uneven in ((False, True) if dpi == 0 and str(struct).count(",") > 0 else (False,)):
             for pickup in (False, True):
                 counter = [0]
 
@@ -523,10 +543,11 @@ def gen_modes(patterns=None):
                         return group([rec(c, depth + 1) for c in x], name="G%d" % depth, number=depth + 1)
                     i = counter[0]
                     counter[0] += 1
-                    return _mode_part("P%d" % (i + 1), i, dp[i % len(dp)], VOICE_SETS[x], pickup, fifths=i - 1)
+                    return _mode_part("P%d" % (i + 1), i, dp[i % len(dp)], VOICE_SETS[x], pickup, fifths=i - 1,
+                                      extra_bar=uneven and i % 2 == 1)
 
-                items = [rec(x) if isinstance(x, list) else rec(x) for x in struct]
-                yield dict(score={"parts": items}, tag="modes %s divs=%s pickup=%s" % (name, dp, pickup))
+                items = [rec(x) for x in struct]
+                yield dict(score={"parts": items}, tag="modes %s divs=%s pickup=%s%s" % (name, dp, pickup, " uneven" if uneven else ""))
 
 
 def gen_touch(ds=(1, 6)):
